@@ -22,6 +22,9 @@ def call_impl(case):
         kw["fixed_points_in_x"] = list(case["fixed"]) if case.get("fixed_as_list") else np.array(case["fixed"], dtype=float)
     else:
         kw["fixed_points_indices_in_x"] = list(case["fixed"]) if case.get("fixed_as_list") else np.array(case["fixed"])
+    if case["mode"] != "search" and case.get("strategy"):
+        # documented: the search strategy only matters when fixed points are NOT given
+        kw["fixed_points_finding_strategy"] = case["strategy"]
     if case.get("as_list"):
         return f(list(case["x"]), list(case["y"]), list(case["xr"]), list(case["yr"]), **kw)
     yd = case.get("y_dtype", "float64")
@@ -35,7 +38,7 @@ def call_impl(case):
 
 def selection(case):
     return RM.fixed_selection([float(v) for v in case["x"]], [float(v) for v in case["xr"]], case["mode"],
-                              case.get("strategy", "closest"), case.get("fixed"))
+                              (case.get("strategy") or "closest") if case["mode"] == "search" else "closest", case.get("fixed"))
 
 
 def _span(x, z, rule, a, b):
@@ -128,7 +131,8 @@ def check_match(case):
         c2["y"] = zf
         try:
             z2 = [float(v) for v in call_impl(c2)]
-            if any(abs(p - q) > tol for p, q in zip(z2, zf)):
+            ytol = 1e-9 * max(mag, max(abs(v) for v in zf))     # values, not integrals: relative to the value scale
+            if any(abs(p - q) > ytol for p, q in zip(z2, zf)):
                 fails.append(fail("C03:not-idempotent", {"first": zf, "second": z2}, key))
         except Exception as e:  # noqa
             fails.append(fail("C03:not-idempotent", {"exception": repr(e)}, key))
@@ -189,14 +193,16 @@ def make_selection_body(grids, L, rmax, images, alphas, prefix):
                     variants = [("search", mode, None)]
                 elif mode == "values":
                     # every admissible subset of samples of size r as explicit fixed positions
-                    variants = [("values", None, [x[i] for i in sub]) for sub in itertools.combinations(range(k), r)
+                    variants = [("values", (None, "lower", "higher", "closest")[(si + r) % 4], [x[i] for i in sub])
+                                for si, sub in enumerate(itertools.combinations(range(k), r))
                                 if all(b - a >= 2 for a, b in zip(sub[:-1], sub[1:]))]
                 else:
-                    variants = [("indices", None, list(sub)) for sub in itertools.combinations(range(k), r)
+                    variants = [("indices", (None, "higher", "lower", "closest")[(si + r) % 4], list(sub))
+                                for si, sub in enumerate(itertools.combinations(range(k), r))
                                 if all(b - a >= 2 for a, b in zip(sub[:-1], sub[1:]))]
                 for (m, strat, fixed) in variants:
                     n_raw += 1
-                    sel = RM.fixed_selection(x, xr, m, strat or "closest", fixed)
+                    sel = RM.fixed_selection(x, xr, m, (strat or "closest") if m == "search" else "closest", fixed)
                     if sel[0] != "ok":
                         ctx.note("filtered_" + sel[0])
                         continue
